@@ -107,6 +107,16 @@ def oracle(cases, impl, impl2_map):
                         bad.append(("sub-token does not belong to its source", [c, "key %d -> %s" % (k, d)]))
             if s0 + m > U16:
                 bad.append(("more sub-tokens than representable were handed out without failing", [c, r[:200]]))
+        elif w[0] == "incver":
+            # the token of a slot's next generation must still name that slot (else its key is the key of another slot's triple),
+            # with sub-id 0 and another version
+            t = tuple(int(x) for x in w[1:4])
+            if r != "PANIC" and len(r.split()) == 3:
+                d = tuple(int(x) for x in r.split())
+                if d[0] != t[0]:
+                    bad.append(("the next generation's token of slot %d names slot %d: its key is the key of another slot's (slot, generation, sub-source) triple" % (t[0], d[0]), [c, r]))
+                elif d[2] != 0 or d[1] == t[1]:
+                    bad.append(("the next generation's token keeps the generation or carries a sub-id", [c, r]))
         elif w[0] == "incsub":
             t = tuple(int(x) for x in w[1:4])
             if r != "PANIC":
